@@ -45,6 +45,15 @@ def class_fields(model: Model, ci: ClassInfo) -> Fields:
                 if _is_expression_class(model, c.module, node.args[1]):
                     checked.add(node.args[0].id)
         vararg = fn.args.vararg.arg if fn.args.vararg else None
+        # self.F = [] ; self.F.extend(args) / for a in args: self.F.append(a)
+        filled = set()
+        for node in ast.walk(fn):
+            if isinstance(node, ast.Call) and isinstance(node.func, ast.Attribute) and node.func.attr in ("extend", "append") \
+                    and isinstance(node.func.value, ast.Attribute) and isinstance(node.func.value.value, ast.Name) \
+                    and node.func.value.value.id == selfname and node.args and isinstance(node.args[0], ast.Name):
+                a0 = node.args[0].id
+                if a0 == vararg or loop_src.get(a0) == vararg:
+                    filled.add(node.func.value.attr)
         for node in ast.walk(fn):
             targets = []
             if isinstance(node, ast.Assign):
@@ -63,7 +72,8 @@ def class_fields(model: Model, ci: ClassInfo) -> Fields:
                         lst.remove(name)
                 if isinstance(value, ast.Name) and value.id in checked:
                     f.child_single.append(name)
-                elif _wraps_param(value, vararg) and vararg and any(loop_src.get(v) == vararg for v in checked):
+                elif vararg and any(loop_src.get(v) == vararg for v in checked) and (
+                        _wraps_param(value, vararg) or (name in filled and isinstance(value, (ast.List, ast.Call)))):
                     f.child_list.append(name)
                 elif isinstance(value, ast.Constant) and value.value in (None, False):
                     f.memo.append(name)
@@ -82,6 +92,10 @@ def _wraps_param(value, pname) -> bool:
         return True
     if isinstance(value, (ast.List, ast.Tuple)) and len(value.elts) == 1 and isinstance(value.elts[0], ast.Starred) \
             and isinstance(value.elts[0].value, ast.Name) and value.elts[0].value.id == pname:
+        return True
+    if isinstance(value, ast.ListComp) and len(value.generators) == 1 and isinstance(value.generators[0].iter, ast.Name) \
+            and value.generators[0].iter.id == pname and isinstance(value.elt, ast.Name) \
+            and isinstance(value.generators[0].target, ast.Name) and value.elt.id == value.generators[0].target.id:
         return True
     return False
 
@@ -389,3 +403,170 @@ def check_routing(rep, model: Model, rule: str) -> None:
                                   "a stored symbolic partial is evaluated without first evaluating the original "
                                   "expression at the same point: the symbolic form may be defined where the "
                                   "original is not", witness_class="not-dominated")
+
+
+# ------------------------------------------------------------------ C09 structural rules
+PROTOCOL_RECURSIVE = {"_evaluate", "_numeric_partial", "_compute_numeric_partials", "_value_formula",
+                      "_verify_domain_constraints", "_numeric_partial_formula", "_numeric_partial_formula_left",
+                      "_numeric_partial_formula_right"}
+TRAVERSALS = {"_evaluate", "_numeric_partial", "_compute_numeric_partials"}
+
+
+def check_reset_dominance(rep, model: Model, rule: str) -> None:
+    """Every *root* call of a traversal (one made outside the protocol's own recursive methods) is
+    dominated by <same receiver>._reset_evaluation_cache()."""
+    for fi in model.all_functions():
+        if fi.name in PROTOCOL_RECURSIVE or fi.is_abstract:
+            continue
+        cfg = None
+        for n_ast in ast.walk(fi.node):
+            if not (isinstance(n_ast, ast.Call) and isinstance(n_ast.func, ast.Attribute)
+                    and n_ast.func.attr in TRAVERSALS):
+                continue
+            if cfg is None:
+                cfg = CFG(fi.node)
+            recv = ast.unparse(n_ast.func.value)
+            site = None
+            resets = set()
+            for n in cfg.nodes:
+                for expr in node_expr(n):
+                    for e in ast.walk(expr):
+                        if e is n_ast:
+                            site = n.id
+                    for e in walk_unconditional(expr):
+                        if isinstance(e, ast.Call) and isinstance(e.func, ast.Attribute) \
+                                and e.func.attr == "_reset_evaluation_cache" and ast.unparse(e.func.value) == recv:
+                            resets.add(n.id)
+            construct = f"{fi.qualname}: {recv}.{n_ast.func.attr}(...)"
+            where = f"{fi.module.rel}:{n_ast.lineno}"
+            if site is None:
+                rep.unknown(rule, construct, where, "call site not located in the CFG (nested function?)")
+            elif any(cfg.dominates(r, site) and r != site for r in resets):
+                rep.ok(rule, construct, where, f"dominated by {recv}._reset_evaluation_cache()")
+            else:
+                rep.violation(rule, construct, where,
+                              f"a traversal is started on {recv} without first clearing its value cache on every path: "
+                              f"values memoised at another point (or left by a failed call) would be reused",
+                              witness_class="reset-missing")
+
+
+def check_reset_complete(rep, model: Model, rule: str) -> None:
+    classes = model.concrete_expression_classes()
+    for fi, users in sorted(distinct_methods(model, "_reset_evaluation_cache", classes).items(),
+                            key=lambda kv: kv[0].qualname):
+        owner = users[0]
+        flds = class_fields(model, owner)
+        ev = model.resolve_method(owner, "_evaluate")
+        sn = self_name(fi)
+        memo_written = set()
+        if ev is not None:
+            esn = self_name(ev)
+            for node in ast.walk(ev.node):
+                if isinstance(node, (ast.Assign, ast.AugAssign, ast.AnnAssign)):
+                    targets = node.targets if isinstance(node, ast.Assign) else [node.target]
+                    for t in targets:
+                        if isinstance(t, ast.Attribute) and isinstance(t.value, ast.Name) and t.value.id == esn:
+                            memo_written.add(t.attr)
+        if not flds.children and not memo_written:
+            rep.ok(rule, f"{fi.qualname} (leaf)", fi.where, "no children and no value memo", nontrivial=False)
+            continue
+        cfg = CFG(fi.node)
+        for mf_ in sorted(memo_written):
+            nodes = set()
+            for n in cfg.nodes:
+                a = n.ast
+                if n.kind == "stmt" and isinstance(a, ast.Assign) and isinstance(a.value, ast.Constant) and a.value.value is None:
+                    for t in a.targets:
+                        if isinstance(t, ast.Attribute) and isinstance(t.value, ast.Name) and t.value.id == sn and t.attr == mf_:
+                            nodes.add(n.id)
+            construct = f"{fi.qualname}[{mf_}]"
+            if nodes and cfg.all_paths_pass_through(nodes):
+                rep.ok(rule, construct, fi.where, f"self.{mf_} is cleared on every path")
+            else:
+                rep.violation(rule, construct, fi.where,
+                              f"_evaluate memoises into self.{mf_} but the reset does not clear it on every path",
+                              witness_class="memo-not-cleared")
+        cc = ChildCalls(model, fi, {"_reset_evaluation_cache"}, owner)
+        visited = cc.fields_always_visited()
+        for fld in flds.children:
+            construct = f"{fi.qualname}[{fld}]"
+            if fld in visited:
+                rep.ok(rule, construct, fi.where, f"the reset recurses into self.{fld} on every path")
+            else:
+                rep.violation(rule, construct, fi.where,
+                              f"the reset does not (always) recurse into self.{fld}: values cached below it survive",
+                              witness_class="child-not-reset")
+
+
+IMMUTABLE_CALLS = {"TypeVar", "compile", "frozenset", "tuple", "int", "float", "str", "bool", "NewType", "getLogger"}
+
+
+def _immutable_value(v) -> bool:
+    if isinstance(v, ast.Constant):
+        return True
+    if isinstance(v, ast.Tuple):
+        return all(_immutable_value(e) for e in v.elts)
+    if isinstance(v, ast.UnaryOp):
+        return _immutable_value(v.operand)
+    if isinstance(v, ast.BinOp):
+        return _immutable_value(v.left) and _immutable_value(v.right)
+    if isinstance(v, ast.Call):
+        f = v.func
+        nm = f.id if isinstance(f, ast.Name) else (f.attr if isinstance(f, ast.Attribute) else "")
+        return nm in IMMUTABLE_CALLS
+    if isinstance(v, (ast.Name, ast.Attribute)):
+        return True      # alias of a module-level function/class/constant
+    if isinstance(v, ast.Lambda):
+        return True
+    return False
+
+
+def check_no_global_state(rep, model: Model, rule: str) -> None:
+    for mod in sorted(model.modules.values(), key=lambda m: m.name):
+        bad = []
+        for st in mod.tree.body:
+            if isinstance(st, (ast.Import, ast.ImportFrom, ast.FunctionDef, ast.ClassDef, ast.If)):
+                continue
+            if isinstance(st, ast.Expr) and isinstance(st.value, ast.Constant):
+                continue
+            if isinstance(st, (ast.Assign, ast.AnnAssign)):
+                v = st.value
+                if v is None or _immutable_value(v):
+                    continue
+                names = [t.id for t in (st.targets if isinstance(st, ast.Assign) else [st.target])
+                         if isinstance(t, ast.Name)]
+                used = False
+                for nm in names:
+                    for m2 in model.modules.values():
+                        for fn in ast.walk(m2.tree):
+                            if not isinstance(fn, (ast.FunctionDef, ast.Lambda)):
+                                continue
+                            for e in ast.walk(fn):
+                                if (isinstance(e, ast.Name) and e.id == nm and m2 is mod) or \
+                                        (isinstance(e, ast.Attribute) and e.attr == nm):
+                                    used = True
+                if not used:
+                    continue      # e.g. __all__: a mutable literal no function ever touches
+                bad.append((st.lineno, "module-level mutable value: " + ast.unparse(st)[:60]))
+                continue
+            bad.append((st.lineno, "module-level statement: " + ast.unparse(st)[:60]))
+        for node in ast.walk(mod.tree):
+            if isinstance(node, (ast.Global, ast.Nonlocal)):
+                bad.append((node.lineno, "global/nonlocal statement"))
+            if isinstance(node, (ast.FunctionDef, ast.Lambda)):
+                a = node.args
+                for d in list(a.defaults) + [k for k in a.kw_defaults if k is not None]:
+                    if isinstance(d, (ast.List, ast.Dict, ast.Set, ast.ListComp, ast.DictComp, ast.SetComp)) or (
+                            isinstance(d, ast.Call) and isinstance(d.func, ast.Name) and d.func.id in ("list", "dict", "set")):
+                        bad.append((d.lineno, "mutable default argument"))
+            if isinstance(node, ast.ClassDef):
+                for st in node.body:
+                    if isinstance(st, (ast.Assign, ast.AnnAssign)) and st.value is not None and not _immutable_value(st.value):
+                        bad.append((st.lineno, "class-level mutable attribute: " + ast.unparse(st)[:60]))
+        if bad:
+            for ln, what in bad:
+                rep.violation(rule, f"{mod.rel}", f"{mod.rel}:{ln}", f"state that outlives a call: {what}",
+                              witness_class=what.split(":")[0])
+        else:
+            rep.ok(rule, mod.rel, mod.rel, "no module-level mutable state, no global/nonlocal, no mutable defaults",
+                   nontrivial=False)
